@@ -212,7 +212,7 @@ fn outcome6(inv : &Inv) -> Outcome6
     Outcome6
     {
         verdict : inv.res.verdict.canonical(),
-        workspace : inv.after.workspace(super::super::scen::RULER_DIR).into_iter().map(|(p, (c, x))| (p, (*c).clone(), x)).collect(),
+        workspace : inv.after.workspace(&super::super::scen::ruler_dir()).into_iter().map(|(p, (c, x))| (p, (*c).clone(), x)).collect(),
     }
 }
 
